@@ -56,7 +56,11 @@ def specOfJson (j : Json) : Option OpSpec :=
   | some (_, meth, kind, hr, ho) =>
     some { kind := (if kind == "method" then .method else if kind == "export" then .export else .imethod),
            meth := (if kind == "method" then (getChars j "meth").getD [] else meth.toList),
-           hasRet := hr, hasOut := ho, post := postOfJson j }
+           hasRet := hr, hasOut := ho, post := postOfJson j,
+           ns := (getChars j "ns").getD [], host := (getChars j "host").getD [],
+           reqPath := (match getField j "reqPath" with
+             | .null => .inst [] none none []
+             | p => pathOfJson p) }
 
 def httpOfJson (j : Json) : HttpResp :=
   { status := (getNat j "status").getD 200,
@@ -69,22 +73,26 @@ def instKind (i : Inst) : String := if (instPath i).isSome then "inst" else "ins
 
 def strsJ (l : List String) : Json := Json.arr (l.map Json.str).toArray
 
+def arrJ {α} (f : α → Json) (l : List α) : Json := Json.arr (l.map f).toArray
+
 def resToJson : Res → Json
   | .void => Json.mkObj [("k", "void")]
-  | .instances l => Json.mkObj [("k", "list"), ("items", strsJ (l.map instKind))]
-  | .paths l => Json.mkObj [("k", "list"), ("items", strsJ (l.map pathKind))]
-  | .inst i => Json.mkObj [("k", "one"), ("item", instKind i)]
-  | .path p => Json.mkObj [("k", "one"), ("item", pathKind p)]
-  | .classPairs l => Json.mkObj [("k", "list"), ("items", strsJ (l.map (fun _ => "pair")))]
-  | .classes l => Json.mkObj [("k", "list"), ("items", strsJ (l.map (fun _ => "cls")))]
-  | .classNames l => Json.mkObj [("k", "list"), ("items", strsJ (l.map (fun _ => "str")))]
-  | .cls _ => Json.mkObj [("k", "one"), ("item", "cls")]
-  | .qdecls l => Json.mkObj [("k", "list"), ("items", strsJ (l.map (fun _ => "qdecl")))]
-  | .qdecl _ => Json.mkObj [("k", "one"), ("item", "qdecl")]
+  | .instances l => Json.mkObj [("k", "list"), ("items", strsJ (l.map instKind)), ("objs", arrJ instToJson l)]
+  | .paths l => Json.mkObj [("k", "list"), ("items", strsJ (l.map pathKind)), ("objs", arrJ pathToJson l)]
+  | .inst i => Json.mkObj [("k", "one"), ("item", instKind i), ("objs", arrJ instToJson [i])]
+  | .path p => Json.mkObj [("k", "one"), ("item", pathKind p), ("objs", arrJ pathToJson [p])]
+  | .classPairs l => Json.mkObj [("k", "list"), ("items", strsJ (l.map (fun _ => "pair"))),
+      ("objs", arrJ (fun (pc : Path × Cls) => Json.arr #[pathToJson pc.1, clsToJson pc.2]) l)]
+  | .classes l => Json.mkObj [("k", "list"), ("items", strsJ (l.map (fun _ => "cls"))), ("objs", arrJ clsToJson l)]
+  | .classNames l => Json.mkObj [("k", "list"), ("items", strsJ (l.map (fun _ => "str"))), ("objs", arrJ strJ l)]
+  | .cls c => Json.mkObj [("k", "one"), ("item", "cls"), ("objs", arrJ clsToJson [c])]
+  | .qdecls l => Json.mkObj [("k", "list"), ("items", strsJ (l.map (fun _ => "qdecl"))), ("objs", arrJ qdeclToJson l)]
+  | .qdecl q => Json.mkObj [("k", "one"), ("item", "qdecl"), ("objs", arrJ qdeclToJson [q])]
   | .pullI l eos ctx qrc => Json.mkObj [("k", "pull"), ("items", strsJ (l.map instKind)), ("eos", eos),
-      ("ctx", optStrJ ctx), ("qrc", qrc.isSome)]
+      ("ctx", optStrJ ctx), ("qrc", qrc.isSome), ("objs", arrJ instToJson l),
+      ("qrcObj", match qrc with | some c => clsToJson c | none => Json.null)]
   | .pullP l eos ctx => Json.mkObj [("k", "pull"), ("items", strsJ (l.map pathKind)), ("eos", eos),
-      ("ctx", optStrJ ctx), ("qrc", false)]
+      ("ctx", optStrJ ctx), ("qrc", false), ("objs", arrJ pathToJson l), ("qrcObj", Json.null)]
   | .invoke rvNone outs => Json.mkObj [("k", "invoke"), ("rvNone", rvNone), ("outs", Json.arr (outs.map strJ).toArray)]
 
 /-- which VersionError subclass parse_cim / parse_message raise (class-name detail of `.versionError`) -/
